@@ -681,6 +681,65 @@ def r7(db, rep):
         rep.ob("R7", "no-operand-use-after-dealloc", True)
 
 
+def r8(db, rep):
+    rep.rule("R8", "abrupt exits unwind environments entry by entry: every builder of jump-record actions (return / break / "
+                   "continue) pushes PopEnvironments{count = jump_info_open_environment_count(i)} for every jump-control "
+                   "entry it walks over, on every path of the loop body, and a HandleFinally is followed by a Transfer")
+    builders = [f for f in db.fns.values() if f.id.startswith("boa_engine::bytecompiler") and f.locals and
+                f.locals[0].endswith("Vec<boa_engine::bytecompiler::jump_control::JumpRecordAction>") and
+                "ByteCompiler" in (f.rec.get("self") or "")]
+    rep.floor("R8", "jump-record action builders", len(builders), 3)
+    for f in builders:
+        name = cname(f.id)
+        pops = set()
+        count_ok = True
+        for b in f.reachable():
+            for st in f.blocks[b]["s"]:
+                r = st["r"]
+                if r.get("k") == "agg" and r.get("adt", "").endswith("JumpRecordAction") and r.get("variant") == "PopEnvironments":
+                    pops.add(b)
+                    o = r["ops"][0] if r["ops"] else None
+                    l = op_local(o) if o else None
+                    rs = roots(f, l) if l is not None else []
+                    if not (rs and all(x[0] == "call" and cn(x[2]) == "ByteCompiler::jump_info_open_environment_count" for x in rs)):
+                        count_ok = False
+        # the aggregate is built, then pushed: use the push blocks that take it
+        nexts = [b for b, t in f.calls() if cn(t).split("::")[-1] == "next" and b in f.reach_from(f.succs(b))]
+        if not rep.anchor("R8", f"{name}: loop over jump_info", nexts) or not rep.anchor("R8", f"{name}: PopEnvironments action", pops):
+            continue
+        N = nexts[0]
+        t = f.blocks[N]["t"]
+        res = t["dest"][0]
+        some_t = None
+        for sb in f.reach_from([t["to"]]):
+            stt = f.blocks[sb]["t"]
+            if stt["t"] != "switch":
+                continue
+            l = op_local(stt["o"])
+            d = f.single_def(l) if l is not None else None
+            if d and d[1] != "t" and d[2].get("k") == "discr" and d[2]["p"] == [res]:
+                some_t = stt["tgts"][stt["vals"].index("1")] if "1" in stt["vals"] else stt["tgts"][-1]
+                break
+        if not rep.anchor("R8", f"{name}: Some edge of the jump_info iterator", some_t is not None):
+            continue
+        path = f.path_avoiding([some_t], pops, lambda x: x == N or f.blocks[x]["t"]["t"] == "ret")
+        rep.ob("R8", f"{name}:PopEnvironments-per-entry", path is None,
+               f"{name}: a jump-control entry can be passed over without a PopEnvironments action — code after the jump "
+               f"(a finally block, the loop head, the code after the loop) then runs with inner environments still "
+               f"pushed, and binding locators resolve against the wrong environment", detail=[f"block path: {path}"], loc=f.span)
+        rep.ob("R8", f"{name}:PopEnvironments-count-source", count_ok,
+               f"{name}: PopEnvironments.count is not jump_info_open_environment_count(i)", loc=f.span)
+        # HandleFinally is followed by Transfer
+        hf = [b for b in f.reachable() for st in f.blocks[b]["s"] if st["r"].get("k") == "agg" and
+              st["r"].get("adt", "").endswith("JumpRecordAction") and st["r"].get("variant") == "HandleFinally"]
+        tr = set(b for b in f.reachable() for st in f.blocks[b]["s"] if st["r"].get("k") == "agg" and
+                 st["r"].get("adt", "").endswith("JumpRecordAction") and st["r"].get("variant") == "Transfer")
+        for i, hb in enumerate(hf):
+            p2 = f.path_avoiding(f.succs(hb), tr, lambda x: x == N or f.blocks[x]["t"]["t"] == "ret") if hb not in tr else None
+            rep.ob("R8", f"{name}:HandleFinally-then-Transfer:{i}", p2 is None,
+                   f"{name}: a HandleFinally action is not followed by the Transfer to its try block's jump control", loc=f.span)
+
+
 def run(db, rep, tier):
     r1(db, rep)
     r2(db, rep)
@@ -689,6 +748,7 @@ def run(db, rep, tier):
     r5(db, rep)
     r6(db, rep)
     r7(db, rep)
+    r8(db, rep)
     rep.assumptions += [
         "panicking paths (unwind edges, js_expect/expect failures) are outside these rules (they are C02's concern)",
     ]
